@@ -10,79 +10,7 @@ the regex rewrite's input->output function and need the tool to run.
 """
 from lib import corpus, facts, mir, report, callgraph, taint
 
-UNORDERED = ("std::collections::HashMap<", "std::collections::HashSet<", "std::collections::BTreeMap<", "std::collections::BTreeSet<")
-ADAPTERS = ("map", "filter", "filter_map", "cloned", "copied", "into_iter", "iter", "flat_map", "chain", "enumerate", "rev", "skip", "take", "inspect", "peekable")
-
-
-def sink_of_iteration(body, bb):
-    """Follow the iterator produced in block bb through adapter calls; returns ('collect', type) | ('extend', type) | ('other', callee)."""
-    t = body.blocks[bb]["t"]
-    cur = t["d"]["l"]
-    nxt = t["t"]
-    seen = 0
-    while nxt is not None and seen < 12:
-        seen += 1
-        # find the (unique) call consuming `cur` as its first argument, following moves
-        aliases = {cur}
-        consumer = None
-        for i in sorted(body.live_blocks()):
-            for s in body.blocks[i]["s"]:
-                if s["k"] == "assign" and s["r"]["k"] == "use" and not s["p"]["p"]:
-                    pl = s["r"]["o"].get("m") or s["r"]["o"].get("c")
-                    if pl and not pl["p"] and pl["l"] in aliases:
-                        aliases.add(s["p"]["l"])
-                if s["k"] == "assign" and s["r"]["k"] == "ref" and not s["p"]["p"] and s["r"]["p"]["l"] in aliases:
-                    aliases.add(s["p"]["l"])
-        for i, tt in body.calls():
-            if i == bb:
-                continue
-            for a in tt["args"][:1]:
-                pl = a.get("m") or a.get("c")
-                if pl and pl["l"] in aliases:
-                    consumer = (i, tt)
-        if consumer is None:
-            return ("other", "no consuming call (used by reference / loop)")
-        i, tt = consumer
-        c = tt.get("callee") or {}
-        name = c.get("name")
-        if name == "collect":
-            target = (c.get("args") or ["", ""])[-1]
-            body._last_collect_bb = i
-            return ("collect", target)
-        if name == "extend":
-            return ("extend", c.get("self", "") or " ".join(c.get("args", [])))
-        if name in ADAPTERS:
-            cur = tt["d"]["l"]
-            bb = i
-            continue
-        return ("other", c.get("path"))
-    return ("other", "chain too long")
-
-
-def sink_bb(body, bb):
-    return getattr(body, "_last_collect_bb", bb)
-
-
-def sorted_before_use(body, bb):
-    """The Vec collected by the call in block bb is put into canonical order (`sort` / `sort_unstable`, i.e. by the full `Ord` of
-    the elements) before anything else reads it: the hash order it was collected in cannot be observed."""
-    def uses_collected(o):
-        return mir.contains(o, lambda x: isinstance(x, tuple) and x and x[0] == "call" and len(x) > 3 and x[3] == bb)
-    sorts, others = [], []
-    for i, t in body.calls():
-        if i == bb:
-            continue
-        if any(uses_collected(body.origin_operand(a)) for a in t["args"]):
-            c = t.get("callee") or {}
-            if c.get("name") in ("sort", "sort_unstable") and "slice" in (c.get("path") or ""):
-                sorts.append(i)
-            elif c.get("name") in ("deref_mut", "as_mut_slice", "deref", "as_mut"):
-                continue
-            else:
-                others.append(i)
-    if len(sorts) != 1:
-        return False
-    return body.dominates(bb, sorts[0]) and all(body.dominates(sorts[0], o) for o in others)
+from lib.callgraph import UNORDERED, ADAPTERS, sink_of_iteration, sink_bb, sorted_before_use, order_free_sink
 
 
 def table_entries(fn, adt_suffix):
@@ -153,11 +81,9 @@ def run(tier):
             elem = t.get("dty", "")
             key = "%s/%s/%s" % (p, name, elem.split("<", 1)[-1][:60].replace(" ", ""))
             kind, what = sink_of_iteration(body, bb)
-            if kind in ("collect", "extend") and any(what.startswith(u) or u in what for u in UNORDERED):
-                ck.ob("R-order-free-sink", key, True, sample={"fn": p, "iterates": elem[:100], "sink": what[:100]})
-                continue
-            if kind == "collect" and what.startswith("std::vec::Vec<") and sorted_before_use(body, sink_bb(body, bb)):
-                ck.ob("R-order-free-sink", key, True, sample={"fn": p, "iterates": elem[:100], "sink": "Vec, sorted before any other use"})
+            free = order_free_sink(body, bb, kind, what)
+            if free:
+                ck.ob("R-order-free-sink", key, True, sample={"fn": p, "iterates": elem[:100], "sink": free[:100]})
                 continue
             exc = None
             for (fn_, tyname), v in SINGLE_SURVIVOR.items():
